@@ -26,6 +26,11 @@ theorem shouldIntercept_replay {t : St} {r : Recording} (hp : t.playback = some 
 theorem hasKey_of_getD {d : Data} {k : Key} {v : RVal} (h : getD d k = some v) : hasKey d k = true := by
   simp [hasKey, h]
 
+/-- the fetched recording agrees with the final data of the record run on every key replay looks up (everything but
+the captured-output keys, which are only compared afterwards) -/
+def RecExt (r : Recording) (aF : Active) : Prop :=
+  ∀ k v, (∀ al n, k ≠ .outArgs al n) → getD aF.data k = some v → getD r.data k = some v
+
 /-- the conclusion of the core lemma, for record start state `s` (recording `a`), final data `aF`, replay state `t` -/
 def ReplayOK (s t : St) (a aF : Active) (p : Prog) (o : Out) : Prop :=
   (exec t p).2 = .out o ∧ (exec t p).1.journal = t.journal ∧ (exec t p).1.counter = (exec s p).1.counter ∧
@@ -36,7 +41,7 @@ theorem replay_core (w : Key → RVal) : ∀ (p : Prog), p.Faithful w → p.NoPl
     ∀ (s t : St) (a aF : Active) (r : Recording) (o : Out),
       s.playback = none → s.enabled = true → s.inInt = false → s.active = some a →
       (exec s p).1.active = some aF → (exec s p).2 = .out o →
-      t.playback = some r → r.data = aF.data → t.inInt = false → t.active = none → t.counter = s.counter →
+      t.playback = some r → RecExt r aF → t.inInt = false → t.active = none → t.counter = s.counter →
       ReplayOK s t a aF p o := by
   intro p
   induction p with
@@ -141,8 +146,9 @@ theorem replay_core (w : Key → RVal) : ∀ (p : Prog), p.Faithful w → p.NoPl
                 cases ha'
                 simp [hw]) aF hact
             -- replay side
+            have hrk : getD r.data k0 = some (w k0) := tr k0 _ (by intro al' n'; rw [hk0]; simp) hstab
             have hfp : firstPresent r.data (k0 :: fb) = some k0 := by
-              simp [firstPresent, tr, hasKey_of_getD hstab]
+              simp [firstPresent, hasKey_of_getD hrk]
             have ih := ihk ob (hFk ob) (hN ob) (write (setInt s1 false) k0 env) t _ aF r o
               (by simpa using b2) (by simpa using b3.trans (by simpa using he)) (by simp [setInt]) hs2a hact hend
               tp tr ti ta (by rw [tc]; simpa using c2.symm)
@@ -150,7 +156,7 @@ theorem replay_core (w : Key → RVal) : ∀ (p : Prog), p.Faithful w → p.NoPl
             have hexec_t : exec t (.callIn cfg args body k) = exec t (k ob) := by
               rw [exec]
               simp only [hti, Bool.not_true, Bool.false_eq_true, if_false, hkeys, tp, hfp]
-              rw [tr, hstab, Option.getD_some, ← hw, hback]
+              rw [hrk, Option.getD_some, ← hw, hback]
             have hexec_s : exec s (.callIn cfg args body k) = exec (write (setInt s1 false) k0 env) (k ob) := by
               rw [exec]
               simp only [hsi, Bool.not_true, Bool.false_eq_true, if_false, hkeys, hp, hrb, hs2]
@@ -255,7 +261,7 @@ theorem replay_core (w : Key → RVal) : ∀ (p : Prog), p.Faithful w → p.NoPl
               = exec (pushPlayback (bump t cfg.alias) (.outArgs cfg.alias (cnt t.counter cfg.alias + 1)) val) (k ob) := by
             rw [exec]
             simp only [hti, Bool.not_true, Bool.false_eq_true, if_false, ht1, hti1, pushPlayback_playback, bump_playback, tp]
-            rw [tc, tr, hstab]
+            rw [tc, tr _ _ (by intro al' n'; simp) hstab]
             simp only [hback]
           have hexec_s : exec s (.callOut cfg args body k)
               = exec (write (setInt s2 false) (.outRes cfg.alias (cnt s.counter cfg.alias + 1)) env) (k ob) := by
